@@ -109,6 +109,23 @@ class Observer:
         if t not in self.tags:
             self.tags.append(t)
 
+    def realistic(self, op: str) -> bool:
+        """The driver only issues schedule_job / mark_job_creating, and a worker only reports job_started, for a job its scheduler
+        SELECTs returned: a job whose job group is in state 'running' — or for an attempt that is already recorded (follow-up,
+        duplicated or late message).  Histories (and shrunk witnesses) must respect that, otherwise they show nothing about the service."""
+        ws = op.split()
+        if ws[0] not in ('schedule', 'creating', 'started'):
+            return True
+        v = self.cur
+        b, j, a = int(ws[1]), int(ws[2]), f'att{ws[3]}'
+        job = v.jobs.get((b, j))
+        if job is None:
+            return True
+        if (b, j, a) in v.attempts:
+            return True
+        g = v.groups.get((b, job['job_group_id']))
+        return bool(g and g['state'] == 'running' and not v.batches[b]['deleted'])
+
     def new_sql_errors(self):
         return self.w.sql_errors[self.n_sql_before:]
 
